@@ -87,11 +87,11 @@ func i32s(xs []int32, sep string) string {
 	return strings.Join(s, sep)
 }
 
-// encMeta: "<controller>/<id@host,…>/<name:err:internal:idx=leader=err=r.r,…|…>"
+// encMeta: "<controller>/<id@host@port,…>/<name:err:internal:idx=leader=err=r.r,…|…>"
 func encMeta(m *metadata.Response) string {
 	var bs, ts []string
 	for _, b := range m.Brokers {
-		bs = append(bs, fmt.Sprintf("%d@%s", b.NodeID, b.Host))
+		bs = append(bs, fmt.Sprintf("%d@%s@%d", b.NodeID, b.Host, b.Port))
 	}
 	for _, t := range m.Topics {
 		var ps []string
@@ -129,7 +129,7 @@ func canonLayout(c protocol.Cluster) string {
 	var bs, ts []string
 	for _, id := range c.BrokerIDs() {
 		b := c.Brokers[id]
-		bs = append(bs, fmt.Sprintf("%d>%d@%s", id, b.ID, b.Host))
+		bs = append(bs, fmt.Sprintf("%d>%d@%s@%d", id, b.ID, b.Host, b.Port))
 	}
 	for _, n := range c.TopicNames() {
 		t := c.Topics[n]
@@ -386,7 +386,7 @@ func randomMeta(r *rand.Rand, wild bool) *metadata.Response {
 	nb := 1 + r.Intn(5)
 	ids := r.Perm(8)[:nb]
 	for _, id := range ids {
-		m.Brokers = append(m.Brokers, metadata.ResponseBroker{NodeID: int32(id), Host: "b" + strconv.Itoa(id), Port: 9092})
+		m.Brokers = append(m.Brokers, metadata.ResponseBroker{NodeID: int32(id), Host: "b" + strconv.Itoa(id), Port: 9092 + int32(r.Intn(2))})
 	}
 	m.ControllerID = int32(ids[r.Intn(nb)])
 	if wild && r.Intn(6) == 0 {
@@ -769,7 +769,7 @@ func (s *scenario) send(spec reqSpec) {
 	var got []string
 	for _, e := range s.c.Since(mark) {
 		if e.ApiKey == key && !(e.First && key == protocol.ApiVersions) {
-			got = append(got, fmt.Sprintf("b%d@v%d", e.Broker, e.Version))
+			got = append(got, fmt.Sprintf("b%d~%s@v%d", e.Broker, e.Addr, e.Version))
 		}
 	}
 	sort.Strings(got)
@@ -820,7 +820,34 @@ func (s *scenario) mutate() {
 	reset := false
 	s.c.Lock()
 	ids := s.c.BrokerIDs()
-	switch r.Intn(6) {
+	switch r.Intn(8) {
+	case 6, 7: // a broker re-registers at another address (never the bootstrap broker, whose address the caller dials)
+		var cand []int32
+		for _, id := range ids {
+			if id != s.boot {
+				cand = append(cand, id)
+			}
+		}
+		if len(cand) > 0 {
+			id := cand[r.Intn(len(cand))]
+			b := s.c.Brokers[id]
+			switch r.Intn(4) {
+			case 0, 1: // same host, another port
+				s.c.MoveBroker(id, b.Host, 9092+(b.Port-9092+1+int32(r.Intn(3)))%5)
+			case 2: // another host
+				s.c.MoveBroker(id, fmt.Sprintf("h%d-%d", id, r.Intn(1000)), b.Port)
+			case 3: // two brokers trade places
+				if len(cand) > 1 {
+					o := s.c.Brokers[cand[r.Intn(len(cand))]]
+					if o.ID != id {
+						h1, p1, h2, p2 := b.Host, b.Port, o.Host, o.Port
+						s.c.MoveBroker(id, "tmp", 1)
+						s.c.MoveBroker(o.ID, h1, p1)
+						s.c.MoveBroker(id, h2, p2)
+					}
+				}
+			}
+		}
 	case 0, 1: // leader moves
 		for _, t := range s.c.Topics {
 			for _, p := range t.Parts {
